@@ -614,6 +614,11 @@ func (l *lexer) lexFuncDef() action {
 }
 
 func (l *lexer) lexToken(tok int) action {
+	if tok == 0 && l.heredoc.exists() {
+		// end of input before the here-documents of the last line
+		l.error(l.pos, "syntax error: here-document delimited by EOF")
+		return nil
+	}
 	switch tok {
 	case AND, OR:
 		l.emit(tok)
